@@ -32,7 +32,7 @@ T = 'chainables.tree'
 
 
 def run(ctx: Ctx):
-  for r in (r1, r2, r3, r4, r5, r6, r7, r8, r9, r10, r11, r12, r13, r14, r15, r16, r17):
+  for r in (r1, r2, r3, r4, r5, r6, r7, r8, r9, r10, r11, r12, r13, r14, r15, r16, r17, r18, r19):
     ctx.guard(r)
 
 
@@ -847,10 +847,67 @@ def r17(ctx: Ctx):
   ctx.floor(rule, 2, n)
 
 
+def r18(ctx: Ctx):
+  rule = 'R-C18-18'
+  ctx.rule(rule, '"reading a path after a copying set returns the set value": the getter and the setter agree on what an indexable'
+           ' NODE is. The setter descends into every `types.is_array_like` node (lists, tuples, arrays) and into Mappings;'
+           ' the read loop of the view uses the same predicate — both functions call `types.is_array_like`, or neither'
+           ' does. A getter narrowed to (Mapping, list, tuple) cannot read the array element the setter has just written'
+           ' (KeyError on every path that continues into an ndarray)')
+  ci = ctx.repo.cls(T, 'TreeMapView')
+  setter = ci.methods.get('_set_by_path')
+  getters = [m_ for name, m_ in ci.methods.items() if m_ is not setter and any(
+      isinstance(x, ast.Raise) and 'mapping key' in unparse(x) for x in ast.walk(m_.node))]
+  if setter is None or not getters:
+    raise AnalysisError(f'{rule}: the read loop (raising "... as a mapping key ...") or _set_by_path was not found in TreeMapView')
+  uses = lambda f: any(isinstance(c, ast.Call) and unparse(c.func).endswith('is_array_like') for c in ast.walk(f.node))
+  n = 0
+  for g_ in getters:
+    n += 1
+    what = f'TreeMapView.{g_.name} and _set_by_path use the same indexable-node predicate'
+    if uses(g_) == uses(setter):
+      ctx.ok(rule, g_, what, g_.node)
+    else:
+      ctx.fail(rule, g_, what,
+               f'_set_by_path {"tests" if uses(setter) else "does not test"} types.is_array_like while {g_.name} {"does" if uses(g_) else "does not"}:'
+               ' a path the setter can write (into an array node) cannot be read back', node=g_.node)
+  ctx.floor(rule, 1, n)
+
+
+def r19(ctx: Ctx):
+  rule = 'R-C18-19'
+  ctx.rule(rule, '"setting a path to its current value changes nothing ... every other path reads as before": the setter only ADDS'
+           ' or REPLACES entries of the node copy it works on — `_set_by_path` never removes one (no pop / popitem / del /'
+           ' clear on the node): fetching the child with `pop(key, ...)` re-inserts every key on the path at the END of its'
+           ' mapping, so a no-op set changes the order of keys(), values(), the JSON form, and OrderedDict equality')
+  ci = ctx.repo.cls(T, 'TreeMapView')
+  fi = ci.methods.get('_set_by_path')
+  if fi is None:
+    raise AnalysisError(f'{rule}: TreeMapView._set_by_path not found')
+  bad = None
+  for x in ast.walk(fi.node):
+    if isinstance(x, ast.Call) and isinstance(x.func, ast.Attribute) and x.func.attr in ('pop', 'popitem', 'clear') and isinstance(x.func.value, ast.Name):
+      bad = x
+    if isinstance(x, ast.Delete):
+      bad = x
+  what = 'TreeMapView._set_by_path removes no entry of the node it updates'
+  if bad is not None:
+    ctx.fail(rule, fi, what,
+             f'`{unparse(bad)[:60]}` removes an entry while setting: the key comes back at the end of the mapping — the leaf order of'
+             ' the copy differs from the original even when nothing changed', node=bad)
+  else:
+    ctx.ok(rule, fi, what, fi.node)
+  ctx.floor(rule, 1, 1)
+
+
 from mlmverif.selfcheck import B, OK  # noqa: E402
 
 _F = 'chainables/tree.py'
 VARIANTS = [
+    B('getter-narrowed-to-builtin-containers', 'chainables/tree.py',
+      "      if types.is_array_like(data) or isinstance(data, Mapping):\n        data = data[k]", "      if isinstance(data, (Mapping, list, tuple)):\n        data = data[k]", 'R-C18-18'),
+    B('setter-pops-the-child-it-updates', 'chainables/tree.py',
+      "              result.get(key, NullMap()), Key(rest_keys), value, in_place", "              result.pop(key, NullMap()), Key(rest_keys), value, in_place", 'R-C18-19'),
     OK('tuple-node-rebuilt-through-a-list-then-tuple', 'chainables/tree.py',
        "        container_maker = tuple\n", "        container_maker = tuple\n        assert container_maker is tuple\n"),
     B('revert-enumeration-descends-into-any-sequence', 'chainables/tree.py',
